@@ -433,13 +433,43 @@ pub fn pat_len(rng: &mut Rng, w: usize, simple: bool) -> usize {
 }
 
 pub fn alphabet(rng: &mut Rng) -> Vec<u8> {
-    match rng.below(6) {
+    match rng.below(9) {
         0 => vec![b'a'],
         1 | 2 => vec![b'a', b'b'],
         3 => vec![b'a', b'c', b'g', b't'],
         4 => vec![0, 255, b'a', b'n'],
-        _ => vec![b'a', b'b', b'c'],
+        5 => vec![b'a', b'b', b'c'],
+        // large alphabets: unrelated text is far from the pattern, so that the block-based version switches
+        // blocks off and on again (band) and the traceback runs along the edge of the computed region
+        6 | 7 => (b'a'..=b'p').collect(),
+        _ => (0..=255).collect(),
     }
+}
+
+/// a copy of `p` with exactly `e` edits (substitution by a different symbol / deletion / insertion), all at
+/// positions below `window`
+pub fn plant(rng: &mut Rng, p: &[u8], alpha: &[u8], e: usize, window: usize) -> Vec<u8> {
+    let mut c = p.to_vec();
+    for _ in 0..e {
+        if c.is_empty() {
+            break;
+        }
+        let pos = rng.below(window.max(1).min(c.len()));
+        match rng.below(3) {
+            0 => {
+                let mut x = *rng.pick(alpha);
+                if x == c[pos] {
+                    x = alpha[(alpha.iter().position(|&y| y == x).unwrap() + 1) % alpha.len()];
+                }
+                c[pos] = x;
+            }
+            1 => {
+                c.remove(pos);
+            }
+            _ => c.insert(pos, *rng.pick(alpha)),
+        }
+    }
+    c
 }
 
 pub fn pattern(rng: &mut Rng, alpha: &[u8], len: usize) -> Vec<u8> {
@@ -484,7 +514,14 @@ pub fn text(rng: &mut Rng, alpha: &[u8], p: &[u8], k: usize) -> Vec<u8> {
             let copies = 1 + rng.below(3);
             for _ in 0..copies {
                 let rate = *rng.pick(&[0usize, 3, 8, 15, 30]);
-                let mut c = rng.mutate(p, alpha, rate);
+                let mut c = if rng.chance(1, 2) {
+                    rng.mutate(p, alpha, rate)
+                } else {
+                    // exactly k-1 / k / k+1 errors, optionally all of them in the first block(s)
+                    let e = (k.min(6) + rng.below(3)).saturating_sub(1);
+                    let window = *rng.pick(&[8usize, 8, 16, m, m]);
+                    plant(rng, p, alpha, e, window)
+                };
                 if rng.chance(1, 6) && !c.is_empty() {
                     // truncated copy
                     let cut = rng.below(c.len());
@@ -495,13 +532,34 @@ pub fn text(rng: &mut Rng, alpha: &[u8], p: &[u8], k: usize) -> Vec<u8> {
                     }
                 }
                 t.extend(c);
-                let gap = *rng.pick(&[0usize, 0, 1, 2, 5, m / 2, m + 1]);
+                let gap = *rng.pick(&[0usize, 0, 1, 2, 5, m / 2, m + 1, 2 * m]);
                 t.extend(rng.seq(alpha, gap));
             }
             t
         }
     };
     t.truncate(cap.max(8));
+    t
+}
+
+/// "band" scenario for the block-based version: copies of the pattern with at most k errors, all of them inside the
+/// first block, back to back or separated by a few symbols, so that lower blocks are switched on exactly when
+/// an alignment with distance k crosses a block boundary
+pub fn band_text(rng: &mut Rng, alpha: &[u8], p: &[u8], k: usize, w: usize) -> Vec<u8> {
+    let mut t = vec![];
+    if rng.chance(1, 3) {
+        let n0 = rng.below(2 * w);
+        t.extend(rng.seq(alpha, n0));
+    }
+    let copies = 1 + rng.below(4);
+    for _ in 0..copies {
+        let e = if rng.chance(3, 4) { k.min(5) } else { rng.below(k.min(5) + 2) };
+        let window = *rng.pick(&[w, w, w - 1, 2 * w]);
+        t.extend(plant(rng, p, alpha, e, window));
+        let gap = *rng.pick(&[0usize, 0, 1, 2, 3, w]);
+        t.extend(rng.seq(alpha, gap));
+    }
+    t.truncate(6 * p.len() + 16);
     t
 }
 
